@@ -76,7 +76,38 @@ pub struct RPOp {
     pub rep: usize,
     pub data: Vec<u8>,
     pub borsh: bool,
+    /// Some(cap): a packer with a fixed-capacity layout -- it reports `cap` bytes and writes only `data` at the front
+    pub pad: Option<usize>,
 }
+macro_rules! defpadded {
+    ($D:ident, $k:expr) => {
+        #[derive(Clone, Debug, PartialEq)]
+        pub struct $D { pub data: Vec<u8>, pub cap: usize }
+        impl SplDiscriminate for $D {
+            const SPL_DISCRIMINATOR: ArrayDiscriminator = ArrayDiscriminator::new(TAGS[$k]);
+        }
+        impl VariableLenPack for $D {
+            fn pack_into_slice(&self, dst: &mut [u8]) -> Result<(), ProgramError> {
+                if dst.len() < self.data.len() {
+                    return Err(ProgramError::AccountDataTooSmall);
+                }
+                dst[..self.data.len()].copy_from_slice(&self.data);
+                Ok(())
+            }
+            fn unpack_from_slice(src: &[u8]) -> Result<Self, ProgramError> {
+                Ok($D { data: src.to_vec(), cap: src.len() })
+            }
+            fn get_packed_len(&self) -> Result<usize, ProgramError> {
+                Ok(self.cap)
+            }
+        }
+    };
+}
+defpadded!(Pd0, 0);
+defpadded!(Pd1, 1);
+defpadded!(Pd2, 2);
+defpadded!(Pd3, 3);
+defpadded!(Pd4, 4);
 fn apply(info: &AccountInfo, op: &RPOp) -> Res<()> {
     macro_rules! go {
         ($B:ty, $H:ty) => {
@@ -87,6 +118,18 @@ fn apply(info: &AccountInfo, op: &RPOp) -> Res<()> {
                 (false, false) => catch(|| realloc_and_pack_variable_len_with_repetition::<$H>(info, &<$H>::new(op.data.clone()), op.rep)),
             }
         };
+    }
+    if let Some(cap) = op.pad {
+        macro_rules! gop {
+            ($D:ident) => {
+                if op.rep == 0 && cap % 2 == 0 {
+                    catch(|| spl_type_length_value::state::realloc_and_pack_first_variable_len::<$D>(info, &$D { data: op.data.clone(), cap }))
+                } else {
+                    catch(|| realloc_and_pack_variable_len_with_repetition::<$D>(info, &$D { data: op.data.clone(), cap }, op.rep))
+                }
+            };
+        }
+        return match op.t { 0 => gop!(Pd0), 1 => gop!(Pd1), 2 => gop!(Pd2), 3 => gop!(Pd3), _ => gop!(Pd4) };
     }
     match op.t {
         0 => go!(tlv::B0, tlv::H0),
@@ -139,6 +182,31 @@ pub struct GInline<T: BorshSerialize + BorshDeserialize, U: BorshSerialize + Bor
 pub struct GConst<const N: usize> {
     pub a: [u8; N],
     pub s: String,
+}
+
+// zero-sized in memory, not in Borsh (a single-variant enum still writes its tag byte); unit-like items
+#[derive(Clone, Debug, PartialEq, BorshSerialize, BorshDeserialize, SplBorshVariableLenPack)]
+pub enum OneVariant {
+    Only,
+}
+#[derive(Clone, Debug, PartialEq, BorshSerialize, BorshDeserialize, SplBorshVariableLenPack)]
+pub enum OnePhantom<T> {
+    Only(std::marker::PhantomData<T>),
+}
+#[derive(Clone, Debug, PartialEq, BorshSerialize, BorshDeserialize, SplBorshVariableLenPack)]
+pub struct OfMarkers {
+    pub a: OneVariant,
+    pub b: (),
+    pub c: OneVariant,
+}
+#[derive(Clone, Debug, PartialEq, BorshSerialize, BorshDeserialize, SplBorshVariableLenPack)]
+pub struct UnitLike;
+#[derive(Clone, Debug, PartialEq, BorshSerialize, BorshDeserialize, SplBorshVariableLenPack)]
+pub enum ManyVariants {
+    A,
+    B(u8),
+    C { x: u16, s: String },
+    D,
 }
 
 fn gen_string(rng: &mut Rng) -> String {
@@ -222,6 +290,14 @@ pub fn run(ctx: &Ctx) -> Report {
         check_packer(&mut rep, "GWhere<u32>", &gw, &mut rng, "TPair TU32 TBytes", &format!("({}, {})", gw.t, e_str(&gw.s)), to_coq);
         let gi = GInline::<String> { t: gen_string(&mut rng), u: if rng.chance(1, 2) { Some(rng.byte()) } else { None } };
         check_packer(&mut rep, "GInline<String>", &gi, &mut rng, "TPair TBytes (TOption TU8)", &format!("({}, {})", e_str(&gi.t), e_opt(gi.u.map(|x| x.to_string()))), to_coq);
+        if k % 10 == 0 {
+            check_packer(&mut rep, "OneVariant", &OneVariant::Only, &mut rng, "", "", false);
+            check_packer(&mut rep, "OnePhantom<u64>", &OnePhantom::<u64>::Only(std::marker::PhantomData), &mut rng, "", "", false);
+            check_packer(&mut rep, "OfMarkers", &OfMarkers { a: OneVariant::Only, b: (), c: OneVariant::Only }, &mut rng, "", "", false);
+            check_packer(&mut rep, "UnitLike", &UnitLike, &mut rng, "", "", false);
+        }
+        let mv = match rng.below(4) { 0 => ManyVariants::A, 1 => ManyVariants::B(rng.byte()), 2 => ManyVariants::C { x: rng.next_u64() as u16, s: gen_string(&mut rng) }, _ => ManyVariants::D };
+        check_packer(&mut rep, "ManyVariants", &mv, &mut rng, "", "", false);
         let gc = GConst::<2> { a: [rng.byte(), rng.byte()], s: gen_string(&mut rng) };
         check_packer(&mut rep, "GConst<2>", &gc, &mut rng, "TPair TU8 (TPair TU8 TBytes)", &format!("({}, ({}, {}))", gc.a[0], gc.a[1], e_str(&gc.s)), to_coq);
     }
@@ -292,8 +368,25 @@ pub fn run(ctx: &Ctx) -> Report {
                 7 if k % 7 == 0 => 10241usize.saturating_sub(o.n - orig.min(o.n)) + room,
                 _ => rng.below(50) as usize,
             };
-            let op = RPOp { t, rep: r, data: rng.bytes(l), borsh };
-            let enc = var_enc(&op.data, borsh);
+            // every fifth monitor-only operation uses the fixed-capacity packer: what it does not write
+            // keeps the old bytes, what the entry gains is zero
+            let pad = if !to_coq && !mode_huge && rng.chance(1, 5) { Some(l) } else { None };
+            let op = match pad {
+                Some(cap) => { let dl = rng.below(cap as u64 + 1) as usize; RPOp { t, rep: r, data: rng.bytes(dl), borsh: false, pad } }
+                None => RPOp { t, rep: r, data: rng.bytes(l), borsh, pad: None },
+            };
+            let borsh = borsh && pad.is_none();
+            let enc = match pad {
+                Some(cap) => {
+                    let mut v = o.find(t, r).map(|i| o.es[i].1.clone()).unwrap_or_default();
+                    if cap > v.len() { v.resize(cap, 0); }
+                    v[..op.data.len()].copy_from_slice(&op.data);
+                    v.truncate(cap);
+                    rep.count("rp:fixed-capacity-packer");
+                    v
+                }
+                None => var_enc(&op.data, borsh),
+            };
             let before = info.try_borrow_data().unwrap().to_vec();
             let got = apply(info, &op);
             let after = info.try_borrow_data().unwrap().to_vec();
